@@ -118,7 +118,7 @@ def _classes(ro_xml):
     es = rc.find('roEdStart')
     if es is None or es.text is None:
         cl.append('no-roEdStart')
-    if any((t.text or '')[-6:-5] in '+-' and ':' in (t.text or '')[-6:] for t in rc.iter()
+    if any(((t.text or '')[-6:-5] in '+-' and ':' in (t.text or '')[-6:]) or (t.text or '').endswith('Z') for t in rc.iter()
            if t.tag in ('roEdStart', 'StoryStarted', 'StoryEnded')):
         cl.append('aware-times')
     if any(t.text and len(t.text) == 16 for t in rc.iter() if t.tag in ('StoryStarted', 'StoryEnded')):
@@ -153,7 +153,8 @@ def rejudge(case):
 
 
 DUR_TEXT = ['0', '1', '2', '3', '5', '10', '0.25', '0.5', '0.75', '1.75', '12.5', '100', '59.04', '0.1',
-            '0.2', '0.3', '1e2', '3600', '86399.99', '7.000', '.5', '  4 ']
+            '0.2', '0.3', '1e2', '3600', '86399.99', '7.000', '.5', '  4 ', '0.0', '00', '+5', '005', '3.0000001',
+            '1E1', '7.', '999999', '0.001']
 
 
 @st.composite
@@ -183,7 +184,7 @@ def timed_ro(draw):
                                '2020-01-01T12:30:00', '1999-12-31T23:59:59']))
     xml = B.tostring(B.envelope(B.ro_create('RO1', stories, ed_start=ed), 5))
     # in a quarter of the documents every time carries the same UTC offset (all aware)
-    zone = draw(st.sampled_from(['', '', '', '+01:00', '-05:30', '+00:00']))
+    zone = draw(st.sampled_from(['', '', '', '+01:00', '-05:30', '+00:00', 'Z']))
     if zone:
         import re
         xml = re.sub(r'(<(roEdStart|StoryStarted|StoryEnded)>)(\d{4}-\d\d-\d\dT[0-9:.]+)(</)',
